@@ -541,6 +541,7 @@ func (e *Engine) Explore(fn *ssa.Function) *Report {
 			r.Solver.Unsat += st.Unsat
 			r.Solver.Unknown += st.Unknown
 			r.Solver.Errors += st.Errors
+			r.Solver.Fallbacks += st.Fallbacks
 			r.Solver.Time += st.Time
 			if st.MaxQuery > r.Solver.MaxQuery {
 				r.Solver.MaxQuery = st.MaxQuery
